@@ -304,8 +304,6 @@ def run_meta(case, drv):
         return skip("P(e)=0")
     rng = random.Random(case["shuffle"])
     newnames = gen.node_names(rng, n, case["rename"])
-    if case["rename"] == "tuple" and case["order"] not in ("greedy",):
-        newnames = gen.node_names(rng, n, "int")      # heuristics remove nodes of a copy: tuple names are a known limitation there
     # new labels: state k of the new presentation is old state sperm[k], with fresh label names
     newlabels = []
     for v in range(n):
